@@ -670,6 +670,9 @@ func runFaults(r *core.Run, prop string) {
 	}
 	maxRatio := 0.0
 	for i := range obs {
+		if obs[i].Skipped {
+			continue // not executed: the run had already met many calls that do not return
+		}
 		o, op, c := &obs[i], &ops[i], &cases[i]
 		r.Cases++
 		desc := map[string]interface{}{"input": c.in.Name, "entry": c.entry, "cut": c.cut, "fault": c.fault, "malformation": c.what}
